@@ -8,7 +8,7 @@ HOOK_COMMITS = ["630d187", "016cd5f"]
 CHECKS = {
     "C01": (
         "exhaustive enumeration of all programs up to N statements (every composition over lines, three entry modes, all reply scripts) executed on the real interpreter in lockstep with a reference statement interpreter",
-        "Every program of the bounded space (quick: N<=2 full alphabet, N=3 medium, N=4 core, N<=3 over a 32-statement mixed-feature alphabet with DATA/READ/RESTORE, DEF FN, arrays, strings, SWAP, CLEAR, ERASE, INPUT; thorough: N<=3 full, N=4 medium, N=5 core, N=4 mixed) is run through lexer, parser, codegen, linker and VM and its transcript (output, trace brackets, prompts, terminating condition with line) compared with a reference interpreter written from the manual; smallest counterexample first. Exhaustive within the bound (small-scope hypothesis for larger programs).",
+        "Every program of the bounded space (quick: N<=2 full alphabet, N=3 medium, N=4 core, N<=3 over a 32-statement mixed-feature alphabet with DATA/READ/RESTORE, DEF FN, arrays, strings, SWAP, CLEAR, ERASE, INPUT; thorough: N<=3 full, N=4 medium, N=4 mixed) is run through lexer, parser, codegen, linker and VM and its transcript (output, trace brackets, prompts, terminating condition with line) compared with a reference interpreter written from the manual; smallest counterexample first. Exhaustive within the bound (small-scope hypothesis for larger programs).",
         "Trusts the reference interpreter (refmodel/interp.rs) as the reading of the manual; programs it marks undefined are skipped and counted; diverging programs are compared on a prefix.",
         "DESIGN.md §3 C01",
     ),
@@ -32,7 +32,7 @@ CHECKS = {
     ),
     "C09": (
         "exhaustive enumeration of all programs of up to N lines over a DATA/READ/RESTORE line alphabet, in every order, under every history of a fixed set, executed on the real interpreter against the reference interpreter's DATA model",
-        "All programs of 1..4 (thorough 5) lines over 20 line bodies (DATA forms incl. DATA behind another statement and inside IF, READ into every type, RESTORE / RESTORE n, loops), under 9 histories (fresh, RUN twice, CLEAR, direct READs, RUN n, edit of a DATA line, interrupted run), are run and compared with the reference. Exhaustive within the bound.",
+        "All programs of 1..4 (thorough 5) lines over 20 line bodies (DATA forms incl. DATA behind another statement and inside IF, READ into every type, RESTORE / RESTORE n, loops), under 13 histories (fresh, RUN twice, CLEAR, direct READs, RUN n, edit of a DATA line, interrupted run, refused direct DATA, RENUM, over-read then appended DATA, NEW then retyped), are run and compared with the reference. Exhaustive within the bound.",
         "Reference: flat constant list in source order; RESTORE n = first constant at or after line n; conversions as assignment.",
         "DESIGN.md §3 C09",
     ),
@@ -62,13 +62,13 @@ CHECKS = {
     ),
     "C14": (
         "exhaustive enumeration of link-clean programs (all subsets of a line-number universe x all referencing statement forms and decoys) x RENUM argument triples, executed on the real interpreter against a reference renumbering",
-        "Every program of 1..3 lines over the numbers {0,5,10,20,100,65000} with bodies from 28 templates (every referencing form, multi-byte prefixes, decoys) is renumbered with every argument triple of a boundary set (210; 36 for 3-line programs in quick); the listing afterwards must be unchanged when the request is invalid and equal to the reference renumbering otherwise; refusal cases (inside a program, compile errors, bad operands) included.",
+        "Every program of 1..3 lines over the numbers {0,5,10,20,100,65529} with bodies from 32 templates (every referencing form, multi-byte prefixes, literals of every spelling before a reference, decoys) is renumbered with every argument triple of a boundary set (210; 36 for 3-line programs in quick); the listing afterwards must be unchanged when the request is invalid and equal to the reference renumbering otherwise; for programs of one and two lines, what runs after RENUM is compared with a fresh interpreter holding the new listing, and a short RUN before and after RENUM must behave alike up to line numbers; refusal cases (inside a program, compile errors, bad operands) included.",
         "Reference renumbering computed on the harness's own templates (reference slots are known positions, not columns).",
         "DESIGN.md §3 C14",
     ),
     "C15": (
         "explicit-state search of the complete store graph (all maps of a small line-number universe x all edit/LIST/DELETE actions) on the real Runtime against a BTreeMap reference",
-        "All 243 (thorough: also 2187) stores over the universe are reached and from each every action (insert, bare number, LIST/DELETE in every operand form over boundary endpoints, numbers above 65529) is executed; listed lines, rejection, resulting store and Listing::line are compared with the reference map. The graph is explored to closure: exhaustive for the universe.",
+        "All 243 (thorough: also 2187) stores over the universe are reached and from each every action (insert, bare number, LIST/DELETE in every operand form over boundary endpoints, bare DELETE in every statement-ending position, numbers above 65529, LOAD of files with bare numbers) is executed; listed lines, rejection, resulting store and Listing::line are compared with the reference map. The graph is explored to closure: exhaustive for the universe.",
         "Line numbers outside the universe behave like those inside it (the endpoints include values between, before and after the stored lines and the 65529/65530 boundary).",
         "DESIGN.md §3 C15",
     ),
